@@ -221,7 +221,8 @@ pub fn dec_ops(u: &mut Unstructured, keys: &[String]) -> Vec<c06::Op> {
 	let mut ops = vec![];
 	while !u.is_empty() && ops.len() < 200 {
 		let v = u.int_in_range(0u32..=999).unwrap_or(0);
-		let op = match u.int_in_range(0u8..=23).unwrap_or(0) {
+		let op = match u.int_in_range(0u8..=24).unwrap_or(0) {
+			24 => Op::Canonicalize(u.int_in_range(0u8..=1).unwrap_or(0)),
 			0..=4 => Op::Push(dec_key(u, keys), v),
 			5 | 6 => Op::PushFront(dec_key(u, keys), v),
 			7 => Op::PushEntry(dec_key(u, keys), v),
@@ -282,32 +283,99 @@ pub fn object_oracles(data: &[u8]) -> Result<bool, String> {
 }
 
 // ---------------------------------------------------------------------------
+// value_laws: one decoded value through the value-level properties (canonical form, Eq/Ord/Hash, unordered
+// equality, the serde bridges)
+
+fn known(r: Result<(), (String, Option<&'static str>)>, prop: &str) -> Result<bool, String> {
+	match r {
+		Ok(()) => Ok(false),
+		// open known findings are identified by their signature and excluded (the campaign would otherwise
+		// rediscover them forever); anything else is a violation
+		Err((_, Some(sig))) if open_signatures().iter().any(|k| k == sig) => Ok(true),
+		Err((m, _)) => Err(format!("{prop}: {m}")),
+	}
+}
+
+fn open_signatures() -> &'static Vec<String> {
+	static S: std::sync::OnceLock<Vec<String>> = std::sync::OnceLock::new();
+	S.get_or_init(|| crate::framework::load_known_findings().into_iter().filter(|k| k.status == "open").map(|k| k.signature).collect())
+}
+
+pub fn value_oracles(data: &[u8]) -> Result<bool, String> {
+	let mut u = Unstructured::new(data);
+	let sel = u.arbitrary::<u16>().unwrap_or(0);
+	let kind = u.arbitrary::<u8>().unwrap_or(0);
+	let ch: Vec<u8> = (0..24).map(|_| u.arbitrary::<u8>().unwrap_or(0)).collect();
+	let v = dec_value(&mut u, 4, true);
+	let nt = v.any(&|x| matches!(x, RefValue::Obj(o) if o.len() >= 2)) && v.any(&|x| matches!(x, RefValue::Num(_)));
+	// the I-JSON reading of the value: no duplicate keys, numbers within double range
+	let ij = crate::gen::map_numbers(crate::gen::dedup_keys(v.clone()), &|n| if props::c17::in_double_range(&n) { n } else { n.split(['e', 'E']).next().unwrap().to_string() });
+	if selected("C09") {
+		props::c09::property(&ij).map_err(|m| format!("C09: {m}"))?;
+	}
+	if selected("C10") {
+		let (ta, tb, _, _) = props::c10::texts(&ij, &ch, &ch[8..], &ch[4..], &ch[12..]);
+		props::c10::property(&ij, &ta, &tb).map_err(|m| format!("C10: {m}"))?;
+	}
+	if selected("C14") {
+		let s = props::c15::shuffle(&v, &mut crate::gen::Chooser::new(&ch));
+		let m = props::c14::near_copy(&s, sel, kind);
+		props::c14::laws_property(&[v.clone(), s, m]).map_err(|m| format!("C14: {m}"))?;
+	}
+	if selected("C15") {
+		if let Err((m, _)) = props::c15::shuffle_case(&v, &ch, sel, kind).verdict {
+			return Err(format!("C15: {m}"));
+		}
+	}
+	if selected("C17") {
+		known(props::c17::property(&v).map(|_| ()), "C17")?;
+	}
+	if selected("C18") {
+		// stated domain of the round-trip clause: duplicate-free, numbers within double range
+		known(props::c18::into_from(&ij).map(|_| ()), "C18")?;
+		known(props::c18::no_panic(&v).map(|_| ()), "C18")?;
+		if let Ok(j) = serde_json::from_str::<serde_json::Value>(&crate::refprint::compact(&ij)) {
+			known(props::c18::from_into(&j).map(|_| ()), "C18")?;
+		}
+	}
+	Ok(nt)
+}
+
+// ---------------------------------------------------------------------------
 
 pub fn run_target(target: &str, data: &[u8]) -> Result<bool, String> {
 	match target {
 		"parse_diff" => parse_oracles(data),
 		"print_rt" => print_oracles(data),
 		"object_ops" => object_oracles(data),
+		"value_laws" => value_oracles(data),
 		t => Err(format!("unknown fuzz target {t}")),
 	}
 }
 
 /// Entry point of the fuzz targets: panics (= libFuzzer crash) on a violation.
 pub fn fuzz_one(target: &str, data: &[u8]) {
-	match run_target(target, data) {
-		Ok(nt) => record(nt, data),
-		Err(m) => {
-			eprintln!("JSV-FUZZ-VIOLATION {m}");
-			panic!("property violated: {m}");
+	// libfuzzer-sys installs a panic hook that aborts at once; the oracles need to catch the panics they
+	// attribute to known findings (and turn any other panic into a reported violation), so the harness hook,
+	// which stays silent inside `guarded`, replaces it
+	static INIT: std::sync::Once = std::sync::Once::new();
+	INIT.call_once(crate::framework::install_panic_hook);
+	match crate::framework::guarded(|| run_target(target, data)) {
+		Ok(Ok(nt)) => record(nt, data),
+		Ok(Err(m)) | Err(m) => {
+			eprintln!("JSV-FUZZ-VIOLATION {}", m.replace('\n', " "));
+			std::process::abort();
 		}
 	}
 }
 
-pub fn target_of(prop: &str) -> Option<&'static str> {
+pub fn targets_of(prop: &str) -> Vec<&'static str> {
 	match prop {
-		"C01" | "C02" | "C03" | "C05" | "C07" | "C11" | "C12" => Some("parse_diff"),
-		"C04" | "C08" | "C13" => Some("print_rt"),
-		"C06" | "C14" | "C15" => Some("object_ops"),
-		_ => None,
+		"C01" | "C02" | "C03" | "C05" | "C07" | "C11" | "C12" => vec!["parse_diff"],
+		"C04" | "C08" | "C13" => vec!["print_rt"],
+		"C06" => vec!["object_ops"],
+		"C14" | "C15" => vec!["object_ops", "value_laws"],
+		"C09" | "C10" | "C17" | "C18" => vec!["value_laws"],
+		_ => vec![],
 	}
 }
